@@ -662,6 +662,7 @@ func init() {
 		ID:  "C08",
 		Run: runC08,
 		Rule: "case = 1-2 alert tasks (named topic - with a recording handler or touched by nothing but the task -, anonymous topic via a handler, or both on one node; alert id from the group-by tag alone or together with a tag outside the group-by; with/without stateChangesOnly) x 1-3 alert IDs with seeded level sequences (2-8/14 points) processed one point at a time; a base run counts the storage transaction boundaries B, then the same seed is re-executed once per crash position (every boundary before/after each commit in thorough and when B<=10, else the first 6 after the daemon has opened and a seeded sample of 6 more): crash there, restart on a byte copy of the Bolt file, restart the tasks, feed the remaining data; " +
+			"(round 3) in a quarter of the cases the daemon first opens on a storage in which a previous version left topic states in the version 1 layout (migrated on open; crashes inside the migration included); after every point, right after open and at the end the three views of each topic (one id, the event listing, the topic's level) must agree; " +
 			"non-trivial = the base run had at least one storage boundary; distinct = distinct (scenario, interleaving signatures) tuples",
 		Real:        []string{"services/alert Service (Open/loadSavedTopicStates, Collect, persistEventState/clearHistory, restoreTopic, EventState, UpdateEvent)", "alert.Topics", "AlertNode (restoreEventState/restoreEvent, determineLevel, alertState)", "services/storage Bolt adapter + real bbolt file", "TaskMaster, httpd write endpoint, edges"},
 		Stub:        []string{"harness StorageService wrapper: crash = abandon the world at a transaction boundary + byte copy of the Bolt file", "recording alert.Handler on every topic", "tasks are restarted by the harness (task_store restart is C14)", "durable levels are read back with bbolt directly, not through Kapacitor"},
